@@ -326,6 +326,86 @@ theorem node_name_domain (s : List Char) :
     nameRe_NodeSliver.L s ↔ 2 ≤ s.length ∧ s.length ≤ 255 ∧ ∀ c ∈ s, (isWord c || c.toNat == 45 || c.toNat == 46) = true :=
   L_rep_chr _ 2 255 s
 
+/-- a strict (non-forgiving) call whose keyword arguments are all fields with values inside their domains is accepted -/
+theorem setFields_strict_total (hl : labelAnchorList = .full) (hs : labelAnchorScalar = .full) :
+    ∀ (kw : List (String × Val)) (o : LObj),
+      (∀ kv ∈ kw, labelFields.contains kv.1 = true ∧ ValOk kv.1 kv.2 ∧ kv.2 ≠ .none) → ∃ o', setFields false o kw = .ok o' := by
+  intro kw
+  induction kw with
+  | nil => intro o _; exact ⟨o, rfl⟩
+  | cons a t ih =>
+    intro o h
+    obtain ⟨k, v⟩ := a
+    obtain ⟨hk, hv, hn⟩ := h (k, v) (List.mem_cons_self ..)
+    simp only [setFields]
+    rw [setField_complete hl hs hk hv hn]
+    exact ih _ (fun kv hkv => h kv (List.mem_cons_of_mem _ hkv))
+
+/-- ASN: at least one decimal digit, value between 1 and 2^32 - 1 (for strings below CPython's int() digit limit). -/
+theorem asn_domain (s : List Char) (hlen : s.length ≤ intMaxStrDigits) :
+    InDomain "asn" s ↔ 1 ≤ s.length ∧ (∀ c ∈ s, isDigit c = true) ∧ 0 < decVal s ∧ decVal s < 4294967296 := by
+  have hr : labelRegex.lookup "asn" = some re_asn := by simp [labelRegex, List.lookup]
+  have hc : labelRange.lookup "asn" = some [⟨.lit 0, .lt, .ofStr⟩, ⟨.ofStr, .lt, .lit 4294967296⟩] := by simp [labelRange, List.lookup]
+  have hL : re_asn.L s ↔ 1 ≤ s.length ∧ ∀ c ∈ s, isDigit c = true := by
+    show (Re.cat (.rep (.chr (fun c => isDigit c)) 1 1) (.star (.chr (fun c => isDigit c)))).L s ↔ _
+    simp only [Re.L.eq_4]
+    constructor
+    · rintro ⟨u, v, rfl, hu, hv⟩
+      obtain ⟨h1, h2, h3⟩ := (L_rep_chr _ 1 1 u).mp hu
+      have h4 := (L_star_chr _ v).mp hv
+      refine ⟨by simp; omega, ?_⟩
+      intro c hc'
+      simp only [List.mem_append] at hc'
+      cases hc' with
+      | inl h => exact h3 c h
+      | inr h => exact h4 c h
+    · rintro ⟨h1, h2⟩
+      cases s with
+      | nil => simp at h1
+      | cons c r =>
+        refine ⟨[c], r, rfl, (L_rep_chr _ 1 1 [c]).mpr ⟨by simp, by simp, ?_⟩, (L_star_chr _ r).mpr ?_⟩
+        · intro x hx; simp only [List.mem_singleton] at hx; subst hx; exact h2 x (List.mem_cons_self ..)
+        · intro x hx; exact h2 x (List.mem_cons_of_mem _ hx)
+  have hint : 1 ≤ s.length → (∀ c ∈ s, isDigit c = true) → evalInt s .ofStr = .ok (Int.ofNat (decVal s)) := by
+    intro h1 h3
+    have hne : s ≠ [] := by intro h; subst h; simp at h1
+    simp only [evalInt, pyInt_digits s hne h3 hlen]; rfl
+  constructor
+  · rintro ⟨h1, h2⟩
+    obtain ⟨a, c⟩ := hL.mp (h1 _ hr)
+    refine ⟨a, c, ?_, ?_⟩
+    · obtain ⟨x, y, hx, hy, hxy⟩ := (evalRange_true_iff s _).mp (h2 _ hc) ⟨.lit 0, .lt, .ofStr⟩ (by simp)
+      simp only [hint a c, Except.ok.injEq] at hy
+      simp only [evalInt, pure, Except.pure, Except.ok.injEq] at hx
+      subst hx; subst hy
+      simp only [cmpOp, decide_eq_true_eq] at hxy
+      exact Int.ofNat_lt.mp hxy
+    · obtain ⟨x, y, hx, hy, hxy⟩ := (evalRange_true_iff s _).mp (h2 _ hc) ⟨.ofStr, .lt, .lit 4294967296⟩ (by simp)
+      simp only [hint a c, Except.ok.injEq] at hx
+      simp only [evalInt, pure, Except.pure, Except.ok.injEq] at hy
+      subst hx; subst hy
+      simp only [cmpOp, decide_eq_true_eq] at hxy
+      exact Int.ofNat_lt.mp hxy
+  · rintro ⟨a, c, d, e⟩
+    refine ⟨fun r hr' => ?_, fun cs hc' => ?_⟩
+    · rw [hr] at hr'; cases hr'; exact hL.mpr ⟨a, c⟩
+    · rw [hc] at hc'; cases hc'
+      apply (evalRange_true_iff s _).mpr
+      intro x hx
+      simp only [List.mem_cons, List.mem_nil_iff, or_false] at hx
+      cases hx with
+      | inl hx => subst hx; exact ⟨0, _, rfl, hint a c, by simp [cmpOp]; omega⟩
+      | inr hx => subst hx; exact ⟨_, 4294967296, hint a c, rfl, by simp [cmpOp]; omega⟩
+
+/-- Any strict call (constructor / bulk setter / update) whose keyword arguments are fields with values inside their
+domains is accepted - several fields at once, scalar and list values mixed. -/
+theorem accept_complete_many (p : Path) (hp : p = .ctor ∨ p = .setf ∨ p = .update) (base : LObj) (kw : List (String × Val))
+    (h : ∀ kv ∈ kw, labelFields.contains kv.1 = true ∧ ValOk kv.1 kv.2 ∧ kv.2 ≠ .none) : ∃ o', enter p base kw = .ok o' := by
+  rcases hp with rfl | rfl | rfl
+  · exact setFields_strict_total anchors_full.1 anchors_full.2.1 kw defaultObj h
+  · exact setFields_strict_total anchors_full.1 anchors_full.2.1 kw base h
+  · exact setFields_strict_total anchors_full.1 anchors_full.2.1 kw base h
+
 /-- The defect that was in the code, for every regex: anchoring with `$` admits each member followed by a newline. -/
 theorem dollar_admits_trailing_newline (r : Re) (w : List Char) (h : r.L w) : accepts .pyDollar r (w ++ ['\n']) = true :=
   (accepts_dollar_iff r _).mpr (Or.inr ⟨w, rfl, h⟩)
